@@ -928,6 +928,8 @@ pub fn c14_mount_step_body() {
     vfs.mount_id_mappings.store(Arc::new(table_maps(|i| if i == IDX_A as usize { map_a } else if i == IDX_VACANT as usize { stale } else { None })));
     let mut root = Entry::default();
     root.inode = kani::any();
+    root.attr.st_uid = kani::any();
+    root.attr.st_gid = kani::any();
     kani::assume(root.inode <= VFS_MAX_INO);
     let max_ino: u64 = kani::any();
     unsafe {
@@ -944,6 +946,23 @@ pub fn c14_mount_step_body() {
             assert!(matches!(r, Ok(i) if i == IDX_VACANT), "[C07] the new mount gets the next vacant index");
             assert!(vfs.get_effective_id_mapping(IDX_VACANT) == want,
                 "[C14] a mount uses its own mapping if it was given one and the global mapping otherwise, regardless of which mounts previously occupied its slot");
+            // the mount root as the client will see it: under Kani, what the recorder saw at insertion
+            // time; in a native replay (no stubs), what the real insertion cached
+            let (got_u, got_g) = if NATIVE_REPLAY {
+                let mps = vfs.mountpoints.load();
+                let m = mps.values().next().unwrap();
+                (m.root_entry.attr.st_uid, m.root_entry.attr.st_gid)
+            } else {
+                match INS_EFF {
+                    Some((i, e, n)) => (spec_remap(root.attr.st_uid, i, e, n), spec_remap(root.attr.st_gid, i, e, n)),
+                    None => (root.attr.st_uid, root.attr.st_gid),
+                }
+            };
+            let (wu, wg) = match want {
+                Some((i, e, n)) => (spec_remap(root.attr.st_uid, i, e, n), spec_remap(root.attr.st_gid, i, e, n)),
+                None => (root.attr.st_uid, root.attr.st_gid),
+            };
+            assert!(got_u == wu && got_g == wg, "[C14] owner ids of a mount root are translated internal->external with the mapping that is effective for the mount (recorded before the root is inserted)");
             if !NATIVE_REPLAY {
                 assert!(INS_CALLS == 1 && INS_IDX == IDX_VACANT && INS_ENTRY_INO == root.inode, "[C07] the backend is inserted once, at the allocated index, with its own root entry");
                 assert!(INS_EFF == want, "[C14] the mount root is translated with the mount's own mapping if it was given one and the global mapping otherwise (mapping recorded before insertion; no inheritance from a previous occupant of the slot)");
